@@ -542,8 +542,10 @@ def _mechanism(sim, culprit, ops):
         return None
     if name == H and k in ("cas", "add", "lcas"):
         # HEAD re-pointed between following it and locking the old target
+        # the content a reader sees is bound when it opens the file
         reads = [i for i, e in enumerate(ev)
-                 if e[1] == me and e[2] == "read" and e[3] == "repo/.git/HEAD"]
+                 if e[1] == me and e[2] == "open_r" and
+                 e[3] == "repo/.git/HEAD"]
         for i, e in enumerate(ev):
             if e[1] != me and e[2] == "replace" and \
                     e[3] == "repo/.git/HEAD.lock":
